@@ -23,6 +23,7 @@ def run(m: Model, r: Report, tier: str) -> None:
                  "covers only typed requests", floor=2)
     r.rule("R4", "the session only changes to a sub-function of DiagnosticSessionControl that the active session offers (or back to 1)", floor=4)
     r.rule("R5", "request parsing falls back to RawRequest for every Exception; the connection loop answers each request with response.pdu", floor=3)
+    r.rule("R7", "the client's matcher, evaluated abstractly on (parsed request, emitted response) with equal echoed bytes, never refuses", floor=8)
     r.rule("R6", "the codec obligations (W∘R byte identity, no raising serialiser) hold for every class the server can emit", floor=8)
 
     reg = Registry(m)
@@ -227,6 +228,18 @@ def run(m: Model, r: Report, tier: str) -> None:
         a_ = ca.analyse(cls)
         issues = [i for p in a_.accepted for i in p.issues if i.kind in CODEC_HARD]
         r.check(bool(a_.accepted) and not issues, "R6", q, "; ".join(sorted({i.msg for i in issues}))[:600], loc=cls.loc)
+
+    # ---------------------------------------------------------------- R7
+    from checks.c03 import abstract_match
+    for pr in reg.pairs:
+        if pr.request is None or pr.response is None or pr.service_id is None or pr.response.qualname not in emitted:
+            continue
+        mt = Matcher(m, pr.response)
+        if not mt.funcs:
+            continue
+        refusals, n_eval = abstract_match(ca, mt, ca.analyse(pr.request), ca.analyse(pr.response))
+        r.check(not refusals, "R7", f"{pr.response.qualname}~{pr.request.name}", "; ".join(sorted(set(refusals)))[:600] +
+                ": the client refuses the virtual ECU's own answer as a mismatch", loc=mt.funcs[0].loc, fact_ok=f"{n_eval} abstract outcomes")
 
     r.assumptions += ["the model (supported_services) only lists sessions created by randomize; handlers do not raise for values the request constructors admit"]
     r.not_decided += ["absence of exceptions for all inputs (not statically boundable here)", "reachability of states"]
